@@ -103,6 +103,8 @@ impl Ctx {
             self.closers(rng, round, &mut m);
             self.free_args(rng, round, &mut m);
             self.keyword_values(rng, round, &mut m);
+            self.map_key_forms(rng, &mut m);
+            self.tuple_bodies(rng, &mut m);
         }
         if let Some(m) = m {
             for (k, (tot, ok, sample)) in &m {
@@ -389,5 +391,89 @@ impl Ctx {
             "value_taking_keywords".into(),
             json!(PARSE_TERM_ARMS.iter().filter(|(_, v)| *v).map(|(n, _)| *n).collect::<Vec<_>>()),
         );
+    }
+}
+
+// ---- (D) block maps: every key form in every position x every way of reaching the block -----------
+// ---- (E) paren-free tuples as inline vs block bodies, with the result used ------------------------
+
+impl Ctx {
+    fn map_key_forms(&mut self, rng: &mut Rng, m: &mut Option<std::collections::BTreeMap<String, (u64, u64, String)>>) {
+        let keys: [(&str, &str); 12] = [
+            ("id", "ka"),
+            ("string-single", "'k a'"),
+            ("string-double", "\"k b\""),
+            ("raw-0", "r'k\\c'"),
+            ("raw-0-double", "r\"k\\d\""),
+            ("raw-1", "r#'k'e'#"),
+            ("raw-2", "r##\"k#\"f\"##"),
+            ("string-escape", "'k\\tx'"),
+            ("string-interpolated", "'k{n}'"),
+            ("meta-type", "@type"),
+            ("meta-named", "@meta kz"),
+            ("id-keyword-like", "then_"),
+        ];
+        // (way, lines before, text that ends the line in front of the block, indent of the block, lines after)
+        let ways: [(&str, &str, &str, usize, &str); 9] = [
+            ("after-assign", "", "x =", 2, "show_map x\n"),
+            ("after-return", "g = ||\n", "  return", 4, "show_map g()\n"),
+            ("after-yield", "g = ||\n", "  yield", 4, "show_map g().next().get()\n"),
+            ("after-break", "x = loop\n", "  break", 4, "show_map x\n"),
+            ("chain-call-arg", "", "x = o.id", 2, "show_map x\n"),
+            ("nested-map-value", "", "x =\n  outer:", 4, "show_map x.outer\n"),
+            ("function-body-first-line", "", "g = ||", 2, "show_map g()\n"),
+            ("if-body-first-line", "", "x = if n == 3", 2, "else\n  0\nshow_map x\n"),
+            ("after-compound-target", "y = {}\n", "y.inner =", 2, "show_map y.inner\n"),
+        ];
+        let prelude = "n = 3\no = {id: |v| v}\nshow_map = |v|\n  print koto.type(v), (v.keys().to_tuple()), (v.values().to_tuple())\n";
+        for (kname, key) in keys {
+            for pos in 0..3 {
+                for (wname, pre, head, bi, post) in ways {
+                    if m.is_none() && !rng.chance(1, 2) && kname != "raw-0" {
+                        continue;
+                    }
+                    let value = if kname == "meta-type" { "'T'".to_string() } else { format!("{}", 1 + rng.below(9)) };
+                    let mut entries: Vec<(String, String)> = vec![("kb".into(), "2".into()), ("kc".into(), "n + 1".into())];
+                    entries.insert(pos.min(2), (key.to_string(), value));
+                    // inline form in the same position
+                    let inline = format!("{{{}}}", entries.iter().map(|(k, v)| format!("{}: {}", k, v)).collect::<Vec<_>>().join(", "));
+                    let block: String = entries.iter().map(|(k, v)| format!("\n{}{}: {}", ind(bi), k, v)).collect();
+                    let (base, var) = if wname == "nested-map-value" {
+                        (format!("{}{}x =\n  outer: {}\n{}", prelude, pre, inline, post), format!("{}{}{}{}\n{}", prelude, pre, head, block, post))
+                    } else if wname == "function-body-first-line" || wname == "if-body-first-line" {
+                        (format!("{}{}{}\n{}{}\n{}", prelude, pre, head, ind(bi), inline, post), format!("{}{}{}{}\n{}", prelude, pre, head, block, post))
+                    } else {
+                        (format!("{}{}{} {}\n{}", prelude, pre, head, inline, post), format!("{}{}{}{}\n{}", prelude, pre, head, block, post))
+                    };
+                    let class = format!("map-key:{}:{}:{}", kname, ["first", "middle", "last"][pos], wname);
+                    self.layout_check(&class, &base, &var, LOracle::Full, m);
+                }
+            }
+        }
+    }
+
+    fn tuple_bodies(&mut self, rng: &mut Rng, m: &mut Option<std::collections::BTreeMap<String, (u64, u64, String)>>) {
+        // the result is used: type, comparison, indexing, size, unpacking — after other values were created
+        let uses = "other = 10, 20, 30\nprint x\nprint koto.type(x), x == ('t', n), x == ('e', n, 1)\nprint x[0], size x\nfirst, second = x\nprint first, second, other\n";
+        let a = rng.below(2); // which branch runs
+        let sel = if a == 0 { "n" } else { "0" };
+        // (class, block form, inline form)
+        let cases: Vec<(&str, String, String)> = vec![
+            ("match-then-arm", format!("x = match {s}\n  3 then\n    't', n\n  else\n    'e', n, 1\n", s = sel), format!("x = match {s}\n  3 then 't', n\n  else\n    'e', n, 1\n", s = sel)),
+            ("match-else-arm", format!("x = match {s}\n  3 then\n    't', n\n  else\n    'e', n, 1\n", s = sel), format!("x = match {s}\n  3 then\n    't', n\n  else 'e', n, 1\n", s = sel)),
+            ("match-both-arms", format!("x = match {s}\n  3 then\n    't', n\n  else\n    'e', n, 1\n", s = sel), format!("x = match {s}\n  3 then 't', n\n  else 'e', n, 1\n", s = sel)),
+            ("switch-then-arm", format!("x = switch\n  {s} == 3 then\n    't', n\n  else\n    'e', n, 1\n", s = sel), format!("x = switch\n  {s} == 3 then 't', n\n  else\n    'e', n, 1\n", s = sel)),
+            ("switch-else-arm", format!("x = switch\n  {s} == 3 then\n    't', n\n  else\n    'e', n, 1\n", s = sel), format!("x = switch\n  {s} == 3 then\n    't', n\n  else 'e', n, 1\n", s = sel)),
+            ("if-else-inline", format!("x = if {s} == 3\n  't', n\nelse\n  'e', n, 1\n", s = sel), format!("x = if {s} == 3 then 't', n else 'e', n, 1\n", s = sel)),
+            ("function-inline-body", format!("g = |v|\n  't', v\nx = g n\n"), format!("g = |v| 't', v\nx = g n\n")),
+            ("function-with-match", format!("g = |v|\n  match v\n    3 then\n      't', v\n    else\n      'e', v, 1\nx = g {s}\n", s = sel), format!("g = |v|\n  match v\n    3 then 't', v\n    else 'e', v, 1\nx = g {s}\n", s = sel)),
+            ("assignment-rhs", format!("x =\n  't', n\n"), format!("x = 't', n\n")),
+            ("match-in-function-result-unpacked", format!("g = |v|\n  match v\n    3 then\n      't', v\n    else\n      'e', v, 1\nx = g {s}\nk1, k2 = g {s}\nprint k1, k2\n", s = sel), format!("g = |v|\n  match v\n    3 then 't', v\n    else 'e', v, 1\nx = g {s}\nk1, k2 = g {s}\nprint k1, k2\n", s = sel)),
+        ];
+        for (class, block, inline) in cases {
+            let base = format!("n = 3\n{}{}", block, uses);
+            let var = format!("n = 3\n{}{}", inline, uses);
+            self.layout_check(&format!("tuple-body:{}:branch={}", class, if a == 0 { "then" } else { "else" }), &base, &var, LOracle::Full, m);
+        }
     }
 }
